@@ -22,6 +22,7 @@ import (
 	"unsafe"
 
 	"github.com/aukilabs/hagall-common/ncsclient"
+	"github.com/aukilabs/hagall/internal/veriftime"
 	"github.com/prometheus/client_golang/prometheus"
 )
 
@@ -273,11 +274,15 @@ func GoroutinesIn(substr string) int {
 }
 
 // Sleep lets time pass: natively a real sleep, under the engine the clock advances by at least d.
-func Sleep(d time.Duration) { time.Sleep(d) }
+func Sleep(d time.Duration) {
+	if !veriftime.Advance(d) {
+		time.Sleep(d)
+	}
+}
 
 // ConcreteClock makes the engine's clock concrete: every time.Now() advances by step nanoseconds
 // (0 = back to an arbitrary non-decreasing clock). Natively the real clock is used.
-func ConcreteClock(step int64) {}
+func ConcreteClock(step int64) { veriftime.Control(step) }
 
 // NCSPosts returns the receipts posted to the (stubbed) credit service. Engine only: natively the harness
 // owns a recording HTTP endpoint instead.
